@@ -375,7 +375,30 @@ func execC16C(c C16CCase) *Failure {
 		logPath = filepath.Join(dir, "child.log")
 		specFile = dir
 	}
+	// what the operation about to be judged would send (the stdio child logs lines it has read asynchronously: a line of an
+	// earlier operation - the notification that ends a handshake has no answer to wait for - may land late, so on that transport
+	// only lines of the judged operation's own method count)
+	curMethod := ""
+	opMethod := map[string]string{"ListTools": "tools/list", "CallTool": "tools/call", "ListPrompts": "prompts/list", "GetPrompt": "prompts/get", "ListResources": "resources/list", "ReadResource": "resources/read", "RootsChanged": "notifications/roots/list_changed"}
 	counter := func() int {
+		if c.Kind == 2 && curMethod != "" {
+			last, stable := -1, 0
+			for i := 0; i < 200 && stable < 4; i++ {
+				n := 0
+				for _, l := range ChildLogLines(logPath) {
+					if strings.Contains(l, `"method":"`+curMethod+`"`) {
+						n++
+					}
+				}
+				if n == last {
+					stable++
+				} else {
+					last, stable = n, 0
+				}
+				time.Sleep(3 * time.Millisecond)
+			}
+			return last
+		}
 		if c.Kind == 2 {
 			// the child appends to its log asynchronously: wait until it is quiet
 			last, stable := -1, 0
@@ -452,6 +475,10 @@ func execC16C(c C16CCase) *Failure {
 	childUsed := false
 	for i, op := range c.Ops {
 		where := fmt.Sprintf("kind=%d op %d %s%s%s (initialized=%v)", c.Kind, i, op.Op, op.Init, op.Call, inited)
+		curMethod = opMethod[op.Call]
+		if op.Op == "init" {
+			curMethod = "initialize"
+		}
 		before := counter()
 		switch op.Op {
 		case "init":
